@@ -13,6 +13,8 @@ V = "/verif"
 REPO = os.environ.get("VERIF_REPO", "/repo")
 BUILD = os.environ.get("VERIF_BUILD", V + "/build")
 COQ = V + "/coq"
+# runs against a scratch tree (VERIF_BUILD set) keep their evidence and replays apart from the committed ones
+OUTDIR = BUILD if "VERIF_BUILD" in os.environ else V
 BIN = BUILD + "/bin"
 
 GOENV = dict(os.environ)
@@ -35,8 +37,8 @@ class Ctx:
         self.work = "%s/run/%s" % (BUILD, prop)
         os.makedirs(self.work, exist_ok=True)
         os.makedirs(BIN, exist_ok=True)
-        os.makedirs(V + "/evidence", exist_ok=True)
-        os.makedirs(V + "/replays", exist_ok=True)
+        os.makedirs(OUTDIR + "/evidence", exist_ok=True)
+        os.makedirs(OUTDIR + "/replays", exist_ok=True)
 
     def env(self):
         e = dict(GOENV)
@@ -264,7 +266,7 @@ def finish(ctx, level, coverage, assumptions, max_report=5):
         fresh.append((key, text, replay))
     for key, text, replay in fresh[:max_report]:
         h = hashlib.sha1(key.encode()).hexdigest()[:12]
-        path = "%s/replays/%s-%s.json" % (V, ctx.prop, h)
+        path = "%s/replays/%s-%s.json" % (OUTDIR, ctx.prop, h)
         obj = {"property": ctx.prop, "key": key, "what": text, "seed": ctx.seed, "tier": ctx.tier}
         obj.update(replay or {})
         with open(path, "w") as f:
@@ -286,7 +288,7 @@ def finish(ctx, level, coverage, assumptions, max_report=5):
         ev["coverage"]["known_findings_reproduced"] = sorted(seen_known)
     if ctx.notes:
         ev["coverage"]["notes"] = ctx.notes
-    with open("%s/evidence/%s.json" % (V, ctx.prop), "w") as f:
+    with open("%s/evidence/%s.json" % (OUTDIR, ctx.prop), "w") as f:
         json.dump(ev, f, indent=1, sort_keys=True)
     return 1 if fresh else 0
 
